@@ -862,7 +862,11 @@ def rule_unlink(ctx) -> RuleResult:
                                    and kw(c, "remove") is not None and _is_true(Pk.X(kw(c, "remove"))), within=lp)
             else:
                 tg = Pk.call_nodes(lambda c, Pk=Pk: attr_name(c) == "_io_call" and len(c.args) > 3 and Pk.text(c.args[0]) == "H5Writer.remove_child" and Pk.text(c.args[3]) == "R_parent", within=lp)
-            covered[kname] = covered.get(kname, False) or bool(tg) and Pk.must(body, tg, fail=[nxt])
+            # the obligation is about a child OF the given parent: a skip decided by "this child belongs to another parent" (a test
+            # relating the child's own parent / the parent's own lists to the `parent` parameter) is not a missed unlink
+            belongs = Pk.conj("R_child.parent is R_parent and R_child.parent == R_parent and R_child.parent.uid == R_parent.uid "
+                              "and R_child in R_parent.children and R_child in R_parent.property_groups")
+            covered[kname] = covered.get(kname, False) or bool(tg) and Pk.must(body, tg, belongs, fail=[nxt])
     chk(unlinks > 0 and per_child, "remove_children: remove_child(<child>.uid, <container of that child>, parent)", "Workspace", "remove_children",
         "the link container is not derived from the child being unlinked", rc0.where,
         "children of another kind than the one the container name was computed from stay linked under the parent in the file: they are back after re-opening")
